@@ -1083,7 +1083,7 @@ func genProbes14(g *Rng, full []string) [][]string {
 func runC14(r *Run, rng *Rng, tier string) error {
 	nModel, nLaw, nFS, nFSLaw := 900, 4000, 500, 2500
 	if tier == "thorough" {
-		nModel, nLaw, nFS, nFSLaw = 9000, 100000, 4000, 40000
+		nModel, nLaw, nFS, nFSLaw = 6000, 100000, 3000, 40000
 	}
 	r.Meta.Rule = "path ops: random block-YAML mappings (depth<=3, keys a/b/name/c, scalars x/y/1/\"1\"/null/true/\"\"/yes, " +
 		"keyed and primitive lists, rare duplicate keys); paths of length<=4 over keys, [name=v], [=v], indices, '-', rare malformed parts; " +
@@ -1137,7 +1137,7 @@ func runC14(r *Run, rng *Rng, tier string) error {
 	}
 	nAPI := 700
 	if tier == "thorough" {
-		nAPI = 8000
+		nAPI = 5000
 	}
 	for i := 0; i < nAPI; i++ {
 		runOne14(r, genAPICase14(rng.Fork()), true)
@@ -1147,6 +1147,26 @@ func runC14(r *Run, rng *Rng, tier string) error {
 		c := genAPICase14(g)
 		runOne14(r, c, false)
 		lawSplit14(r, c, g)
+	}
+	// anchors / aliases / merge keys: the de-anchored document goes to the model and the laws; the operation on the
+	// document as written runs on the implementation only and is counted as skipped when its result is unrepresentable
+	nAlias := 120
+	if tier == "thorough" {
+		nAlias = 1500
+	}
+	for i := 0; i < nAlias; i++ {
+		c, raw, ok := genAliasCase14(rng.Fork(), r)
+		if ok {
+			r.Count("alias_docs", "de-anchored: sent to the model")
+			runOne14(r, c, true)
+		}
+		cls, doc, found, _ := exec14(raw)
+		if _, rep := caseTerm14(raw, cls, doc, found); rep {
+			r.Count("alias_docs", "as written: representable result")
+		} else {
+			r.Count("alias_docs", "as written: implementation only (alias nodes are not representable)")
+			r.Meta.Skipped++
+		}
 	}
 	for i := 0; i < nLaw; i++ {
 		g := rng.Fork()
